@@ -134,7 +134,7 @@ def run(chk):
                 ra, rb = run_history(fa, unroll, fa.impls), run_history(fb, unroll, fb.impls)
                 for f, st, r, t in ((fa, sa, ra, ta), (fb, sb, rb, tb)):
                     obs = clist("None" if x is None else f"(Some {clist(to_coq.opiece(p) for p in x)})" for x, _ in r)
-                    lay_cases.append(cpair(st, cbool(unroll), clist(to_coq.impl(im) for im in f.impls), obs)); meta_l.append((t, unroll))
+                    lay_cases.append(cpair(st, cbool(unroll), clist(to_coq.impl(im) for im in serde_run.parse(t).unwrap().impls), obs)); meta_l.append((t, unroll))
                 va = [None if x is None else [(p.name, p.bitstart, p.bitlength, p.endianess) for p in x] for x, _ in ra]
                 vb = [None if x is None else [(p.name, p.bitstart, p.bitlength, p.endianess) for p in x] for x, _ in rb]
                 chk.count((ta, tb, unroll), nontrivial=ta != tb, sample=None)
